@@ -60,3 +60,56 @@ theorem signerLoop_total (validate : Bool) (nArb : Nat) : ∀ (signers seen : Li
 
 
 end ElaVerif.CoinbaseTotal
+
+namespace ElaVerif.CoinbaseTotal
+open ElaVerif.Script
+
+theorem blockSanityHead_total (b : BlockIn) : blockSanityHead false b ≠ .panic := by
+  unfold blockSanityHead
+  simp only [Bool.false_eq_true, if_false]
+  apply ite_np (fun _ => val_np _); intro _
+  apply ite_np (fun _ => val_np _); intro _
+  apply ite_np (fun _ => val_np _); intro _
+  apply ite_np (fun _ => val_np _); intro hl
+  apply ite_np (fun _ => val_np _); intro _
+  apply ite_np (fun _ => val_np _); intro _
+  apply ite_np (fun _ => val_np _); intro _
+  cases htx : b.txs with
+  | nil => rw [htx] at hl; simp at hl
+  | cons t0 rest =>
+    simp only []
+    apply ite_np (fun _ => val_np _); intro _
+    exact ite_np (fun _ => val_np _) (fun _ => val_np _)
+
+theorem rdLoop_total : ∀ (progs : List (Bytes × Bool)), (∀ x ∈ progs, 2 ≤ x.1.length) → rdLoop false progs ≠ .panic
+  | [], _ => by unfold rdLoop; exact val_np _
+  | (code, reg) :: rest, h => by
+    unfold rdLoop
+    have hc := h (code, reg) (by simp)
+    cases hm : isMultiSig true code with
+    | panic => exact absurd hm (isMultiSig_total code)
+    | val ms =>
+      simp only [R.bind_val]
+      have ih := rdLoop_total rest (fun x hx => h x (by simp [hx]))
+      cases ms
+      · simp only [Bool.false_eq_true, if_false]
+        rw [if_neg (by simp at hc; omega)]
+        exact ite_np (fun _ => val_np _) (fun _ => ih)
+      · simp only [if_true]
+        apply ite_np
+        · intro _; simp only [Bool.false_eq_true, if_false]; exact val_np _
+        · intro _; exact ih
+
+theorem returnDepositCheck_total (addrCount : Nat) (progs : List (Bytes × Bool)) (ov : Bool)
+    (h : ∀ x ∈ progs, 2 ≤ x.1.length) : returnDepositCheck false addrCount progs ov ≠ .panic := by
+  unfold returnDepositCheck
+  apply ite_np (fun _ => val_np _); intro _
+  cases hr : rdLoop false progs with
+  | panic => exact absurd hr (rdLoop_total progs h)
+  | val r =>
+    simp only [R.bind_val]
+    cases r with
+    | some e => exact val_np _
+    | none => exact ite_np (fun _ => val_np _) (fun _ => val_np _)
+
+end ElaVerif.CoinbaseTotal
